@@ -44,6 +44,8 @@ pub struct Written {
     pub expect: Vec<u8>,
     /// None = well-formed; Some(reason) otherwise
     pub ill: Option<String>,
+    /// every ill-formedness found (ill is the first of them)
+    pub ills: Vec<String>,
     pub layout: Vec<ChunkLayout>,
     /// offset of the end byte 0x00
     pub end_off: usize,
@@ -57,7 +59,9 @@ pub fn write(chunks: &[Chunk]) -> Written {
     let mut need_dict_reset = true;
     let mut need_props = true;
     let mut layout = Vec::new();
-    let mut note = |ill: &mut Option<String>, s: String| {
+    let ills: std::cell::RefCell<Vec<String>> = std::cell::RefCell::new(Vec::new());
+    let note = |ill: &mut Option<String>, s: String| {
+        ills.borrow_mut().push(s.clone());
         if ill.is_none() {
             *ill = Some(s)
         }
@@ -161,7 +165,8 @@ pub fn write(chunks: &[Chunk]) -> Written {
     }
     let end_off = out.len();
     out.push(0);
-    Written { bytes: out, expect: m.output(), ill, layout, end_off }
+    let ills = ills.into_inner();
+    Written { bytes: out, expect: m.output(), ill, ills, layout, end_off }
 }
 
 #[derive(Debug, Clone, PartialEq, Eq)]
